@@ -151,6 +151,8 @@ def parse_items(s, toks=None, lo=0, hi=None):
             if t.kind == "punct":
                 if t.text in ("(", "["):
                     m = match_close(toks, m) + 1; continue
+                if t.text == "{" and kind in ("use", "const", "static", "type"):
+                    m = match_close(toks, m) + 1; continue   # braces inside a `;`-terminated item (use lists, struct expressions)
                 if t.text == "{":
                     e = match_close(toks, m)
                     it.body_open, it.body_close = toks[m].pos, toks[e].pos
